@@ -248,6 +248,41 @@ def elem_eq(a, b):
     return smt.req(smt.R(a), smt.R(b))
 
 
+def _arrays_equal_silent(e, a, b, timeout_ms=8000):
+    """forall idx. a[idx] == b[idx] (shapes included), decided without recording obligations"""
+    a, b = values.const_arr(a), values.const_arr(b)
+    if a.ndim != b.ndim or (a.kind == "bool") != (b.kind == "bool"):
+        return False
+    for p, q in zip(a.shape, b.shape):
+        if not e.holds(smt.req(dim_term(p), dim_term(q))):
+            return False
+    small = [ax for ax, d in enumerate(b.shape) if isinstance(d, int) and 1 < d <= 4]
+    import itertools
+    combos = list(itertools.product(*[range(b.shape[ax]) for ax in small])) if small else [()]
+    if len(combos) > 16:
+        small, combos = [], [()]
+    for combo in combos:
+        shp = list(b.shape)
+        for ax in small:
+            shp[ax] = 1
+        idx, hyps = fresh_index(e, shp)
+        idx = list(idx)
+        for ax, v in zip(small, combo):
+            idx[ax] = v
+        idx = tuple(idx)
+        e.hyps.extend(hyps)
+        try:
+            with engine.no_div_guard():
+                x, g = b.at_(idx), a.at_(idx)
+            goal = elem_eq(g, x)
+            ok = goal if isinstance(goal, bool) else (engine._ring_identity(goal, e.pc + e.hyps) or e.holds(goal, timeout_ms=timeout_ms))
+        finally:
+            del e.hyps[len(e.hyps) - len(hyps):]
+        if not ok:
+            return False
+    return True
+
+
 def compare(e: Engine, name, got, exp, *, enumerate_small=True):
     """emit the obligations `got == exp` (deep)"""
     if isinstance(exp, ObjSpec):
@@ -310,6 +345,14 @@ def compare(e: Engine, name, got, exp, *, enumerate_small=True):
             pass
         if (got.kind == "bool") != (exp.kind == "bool"):
             e.prove(f"{name}: boolean-ness of dtype (got {got.kind}, expected {exp.kind})", False, kind="ensures")
+            return
+        # congruence: got = OP(a), exp = OP(b) for the same (real-)linear transform  <==  forall idx. a[idx] == b[idx]
+        cg, cx = getattr(got, "cong", None), getattr(exp, "cong", None)
+        if cg is not None and cx is not None and cg[0] == cx[0] and cg[1] == cx[1] and len(cg[2]) == len(cx[2]) \
+                and all(e.holds(smt.req(p, q)) for p, q in zip(cg[2], cx[2])) and _arrays_equal_silent(e, cg[3], cx[3]):
+            ob = engine.Obligation(f"{e.func_name}::{name}: every element equals the spec (by congruence: the arguments of {cg[0]} are equal for every index)", "ensures")
+            ob.path, ob.func, ob.status = e.path_id, e.func_name, "discharged"
+            e.obligations.append(ob)
             return
         # small concrete axes (channel / direction axes) are enumerated, the others get a fresh symbolic index
         small = [ax for ax, d in enumerate(exp.shape) if isinstance(d, int) and 1 < d <= 4]
